@@ -600,7 +600,10 @@ fn child(node: dom::XmlNode) -> Vec<dom::XmlNode> {
     }
 
     for c in node.child_nodes().iter() {
-        nodes.push(c.clone());
+        // The document type declaration is not a node of the XPath data model.
+        if !matches!(c, dom::XmlNode::DocumentType(_)) {
+            nodes.push(c.clone());
+        }
     }
 
     nodes
@@ -664,7 +667,9 @@ fn following_sibling(node: dom::XmlNode) -> Vec<dom::XmlNode> {
 
     let mut next = node.next_sibling();
     while let Some(n) = next {
-        nodes.push(n.clone());
+        if !matches!(n, dom::XmlNode::DocumentType(_)) {
+            nodes.push(n.clone());
+        }
         next = n.next_sibling();
     }
 
@@ -721,7 +726,9 @@ fn preceding_sibling(node: dom::XmlNode) -> Vec<dom::XmlNode> {
 
     let mut prev = node.previous_sibling();
     while let Some(p) = prev {
-        nodes.push(p.clone());
+        if !matches!(p, dom::XmlNode::DocumentType(_)) {
+            nodes.push(p.clone());
+        }
         prev = p.previous_sibling();
     }
 
